@@ -74,25 +74,25 @@ theorem gradient_is_partials (rc rn : Bool) (p : Poly (Vec R n)) (hw : WF p) (hb
   ⟨WF_gradient rc rn p hw hb, partials_length rn p, fun j hj i k hk => gradient_elem rc rn p hw hb j hj i k hk⟩
 
 /-- **Hessian**: well-formed, one row and one column per indeterminate whatever the retain flags (the repair of D24),
-and entry `(a, j)` of element `i` is `∂²/∂x_a ∂x_j` (names in index order, as numpoly keeps them) -/
-theorem hessian_is_second_partials (rc rn : Bool) (p : Poly (Vec R n)) (hw : WF p) (hb : Bdd p)
-    (hs : p.names.Pairwise (· < ·)) :
-    WF (hessianOf rc rn p) ∧ (partials rn (hessAligned rc rn p)).length = p.names.length ∧
+and entry `(a, j)` of element `i` is `∂²/∂x_a ∂x_j` with BOTH indices in the order of `p.names` — for every
+well-formed `p`, also when its names are not stored in index order (rows follow `poly.names`, like the columns) -/
+theorem hessian_is_second_partials (rc rn : Bool) (p : Poly (Vec R n)) (hw : WF p) (hb : Bdd p) :
+    WF (hessianOf rc rn p) ∧ (hessRows rc rn p).length = p.names.length ∧
     ∀ (a : Nat) (ha : a < p.names.length) (j : Nat) (hj : j < p.names.length) (i : Fin n)
-      (k' : Fin ((partials rn (hessAligned rc rn p)).length * ((partials rn p).length * n))),
+      (k' : Fin ((hessRows rc rn p).length * ((partials rn p).length * n))),
       k'.val = a * (p.names.length * n) + (j * n + i.val) →
       denAt (hessianOf rc rn p) k' = pderiv (p.names[a]) (pderiv (p.names[j]) (denAt p i)) :=
-  ⟨WF_hessianOf rc rn p hw hb, hessian_rows rc rn p hs,
-    fun a ha j hj i k' hk' => hessian_elem_sorted rc rn p hw hb hs a ha j hj i k' hk'⟩
+  ⟨WF_hessianOf rc rn p hw hb, hessian_rows rc rn p,
+    fun a ha j hj i k' hk' => hessian_elem rc rn p hw hb a ha j hj i k' hk'⟩
 
 /-- the Hessian is symmetric -/
 theorem hessian_symmetric (rc rn : Bool) (p : Poly (Vec R n)) (hw : WF p) (hb : Bdd p)
-    (hs : p.names.Pairwise (· < ·)) (a : Nat) (ha : a < p.names.length) (j : Nat) (hj : j < p.names.length)
-    (i : Fin n) (k1 k2 : Fin ((partials rn (hessAligned rc rn p)).length * ((partials rn p).length * n)))
+    (a : Nat) (ha : a < p.names.length) (j : Nat) (hj : j < p.names.length)
+    (i : Fin n) (k1 k2 : Fin ((hessRows rc rn p).length * ((partials rn p).length * n)))
     (h1 : k1.val = a * (p.names.length * n) + (j * n + i.val))
     (h2 : k2.val = j * (p.names.length * n) + (a * n + i.val)) :
     denAt (hessianOf rc rn p) k1 = denAt (hessianOf rc rn p) k2 :=
-  hessian_symm rc rn p hw hb hs a ha j hj i k1 k2 h1 h2
+  hessian_symm rc rn p hw hb a ha j hj i k1 k2 h1 h2
 end arrays
 
 end Np.Props.C06
